@@ -370,7 +370,31 @@ impl<'a, 'p> Gen<'a, 'p> {
         let body_budget = 1 + self.ch.below(4);
         let saved = self.budget;
         self.budget = body_budget.min(saved.max(1));
-        let (mut body, bst) = self.stages(body_st);
+        let (mut body, bst) = if iterate && self.ch.flag(1, 3) {
+            // a body chained entirely in the `Iterate` block (no block on the cycle runs at its own
+            // pace): the shape for which small batches are not excluded by the known finding F7
+            let n = 1 + self.ch.below(3);
+            let mut b = Vec::new();
+            let mut bs = body_st;
+            for _ in 0..n {
+                b.push(match self.ch.weighted(&[3, 2, 3]) {
+                    0 => Stage::Map(self.map_fn(true)),
+                    1 => Stage::Filter(self.filter_fn()),
+                    _ => {
+                        let f = FlatFn::Dup(self.ch.range(1, 3) as u8);
+                        if bs.bound <= 400 {
+                            bs.bound = bs.bound.saturating_mul(f.max_fanout());
+                            Stage::FlatMap(f)
+                        } else {
+                            Stage::Map(MapFn::Affine(1, 1))
+                        }
+                    }
+                });
+            }
+            (b, bs)
+        } else {
+            self.stages(body_st)
+        };
         self.budget = saved.saturating_sub(body.len());
         let mut out_bound = bst.bound;
         if iterate && bst.repl != Repl::Unlimited {
@@ -435,7 +459,7 @@ impl<'a, 'p> Gen<'a, 'p> {
                                 0 => FlatFn::Dup(self.ch.range(0, 3) as u8),
                                 _ => FlatFn::Fan(self.ch.range(1, 4) as u8),
                             };
-                            if st.bound.saturating_mul(f.max_fanout().max(1)) > CAP || (st.in_iterate && f.max_fanout() > 1) {
+                            if st.bound.saturating_mul(f.max_fanout().max(1)) > CAP || (st.in_iterate && f.max_fanout() > 1 && st.bound > 400) {
                                 Stage::Map(MapFn::Affine(1, 1))
                             } else {
                                 st.bound = st.bound.saturating_mul(f.max_fanout().max(1));
@@ -606,12 +630,6 @@ impl<'a, 'p> Gen<'a, 'p> {
                 }
                 c @ (9 | 10) => {
                     let iterate = c == 10;
-                    if iterate && st.small_batch && std::env::var("VERIF_NO_F7_EXCLUSION").is_err() {
-                        // open known finding F7 (C04): keep the batches around `iterate` large
-                        self.steered += 1;
-                        out.push(Stage::Batch(BatchSpec::Fixed(1024)));
-                        st.small_batch = false;
-                    }
                     if st.repl != Repl::Unlimited {
                         // loops need an input with unlimited replication
                         out.push(Stage::Shuffle);
@@ -619,8 +637,18 @@ impl<'a, 'p> Gen<'a, 'p> {
                         st.det = false;
                     }
                     let (l, nst) = self.loop_spec(st, iterate);
+                    if iterate && st.small_batch && amplifying_body(&l.body) && std::env::var("VERIF_NO_F7_EXCLUSION").is_err() {
+                        // open known finding F7 (C04): a body with a block that produces messages at
+                        // its own pace (side input, broadcast, repartitioning, ...) deadlocks with
+                        // small batches: keep the batches around such an `iterate` large
+                        self.steered += 1;
+                        out.push(Stage::Batch(BatchSpec::Fixed(1024)));
+                        st.small_batch = false;
+                    }
                     out.push(if iterate { Stage::Iterate(l) } else { Stage::Replay(l) });
+                    let small = st.small_batch;
                     st = nst;
+                    st.small_batch = small;
                 }
                 11 => {
                     let b = self.batch();
@@ -678,6 +706,7 @@ impl<'a, 'p> Gen<'a, 'p> {
         }
     }
 
+    /// `has_iterate`: the job contains an `iterate` whose body is amplifying (see `amplifying_iterate`)
     pub fn config(&mut self, thorough: bool, has_iterate: bool) -> ConfigSpec {
         let layout = self.layout(thorough);
         let mut batch = if self.ch.flag(2, 3) || self.p.small_batches {
@@ -720,4 +749,24 @@ pub fn min_explicit_batch(stages: &[Stage]) -> Option<u32> {
     }
     walk(stages, &mut m);
     m
+}
+
+/// A loop body is *amplifying* when some block on the cycle Iterate -> body -> feedback produces
+/// messages at its own pace: anything but operators chained in the `Iterate` block itself. With
+/// small batches such a body runs into the open known finding F7 (cyclic back-pressure).
+pub fn amplifying_body(body: &[Stage]) -> bool {
+    body.iter().any(|s| !matches!(s, Stage::Map(_) | Stage::Filter(_) | Stage::FilterMap(..) | Stage::FlatMap(_)))
+}
+
+/// Does the job contain an `iterate` with an amplifying body?
+pub fn amplifying_iterate(stages: &[Stage]) -> bool {
+    stages.iter().any(|s| match s {
+        Stage::Iterate(l) => amplifying_body(&l.body),
+        Stage::Replay(l) => amplifying_iterate(&l.body),
+        Stage::Fork { branch, .. } => amplifying_iterate(branch),
+        Stage::Diamond { left, right, .. } => amplifying_iterate(left) || amplifying_iterate(right),
+        Stage::With { other, .. } => amplifying_iterate(&other.stages),
+        Stage::Route { branches, .. } => branches.iter().any(|b| amplifying_iterate(b)),
+        _ => false,
+    })
 }
